@@ -567,6 +567,7 @@ func (s *Scorch) Batch(batch *index.Batch) (err error) {
 		itemsDeQueued++
 	}
 	close(resultChan)
+	simOrderAnalysisResults(analysisResults)
 	defer atomic.AddUint64(&s.iStats.analysisBytesRemoved, uint64(totalAnalysisSize))
 
 	atomic.AddUint64(&s.stats.TotAnalysisTime, uint64(time.Since(start)))
